@@ -5,13 +5,14 @@ package main
 // through C12's typed read calls (token syntax of c12.go), the typed reads through the
 // stream's own methods or an OctetsReader on it.
 //
-//   c12s <stream op> ... | <read op> ...
+//   c12s <stream op> ... | <read op> ... | <stream op> ... | <read op> ... (any number of segments)
 //
-// Output: "<c13S trace> || R=<c12 results>". The trace is the one of c13Stream (returned
-// value, Bytes(), Len(), Position() after every op) except that a panicking Bytes() does
-// not end the run -- the reads are still made, so a read that panics on a cursor left
-// outside the data by a stream op is observed. A panicking stream op ends the case
-// ("... ; PANIC || NOTRUN").
+// Output: one part per segment, joined by " || ": "<c13S trace>" for stream ops,
+// "R=<c12 results> B=<Bytes() after the segment>" for read calls. The trace is the one of
+// c13Stream (returned value, Bytes(), Len(), Position() after every op) except that a
+// panicking Bytes() does not end the run -- the reads are still made, so a read that panics
+// on a cursor left outside the data by a stream op is observed. A panicking stream op ends
+// the case (its part ends with PANIC and is the last one).
 
 import (
 	"encoding/hex"
@@ -72,31 +73,22 @@ func c12sStreamOp(s *iox.OctetsStream, op c13Op) string {
 
 func init() {
 	register("c12s", octKeptWrap(func(toks []string) string {
-		var sep = len(toks)
-		for i, t := range toks {
+		// segments separated by "|": even = stream ops, odd = typed read calls
+		var segs = [][]string{nil}
+		for _, t := range toks[1:] {
 			if t == "|" {
-				sep = i
-				break
+				segs = append(segs, nil)
+			} else {
+				segs[len(segs)-1] = append(segs[len(segs)-1], t)
 			}
 		}
-		var ops = c13Parse(toks[1:sep])
-		var rops []string
-		if sep < len(toks) {
-			rops = toks[sep+1:]
+		// all stream-op tokens are parsed in one go: the pattern bytes of w<n> continue across segments
+		var allOps []string
+		for k := 0; k < len(segs); k += 2 {
+			allOps = append(allOps, segs[k]...)
 		}
+		var ops = c13Parse(allOps)
 		var stream = &iox.OctetsStream{}
-		var out []string
-		for _, op := range ops {
-			op := op
-			ret, ok := c13Try(func() string { return c12sStreamOp(stream, op) })
-			if !ok {
-				out = append(out, "PANIC")
-				return strings.Join(out, " ; ") + " || NOTRUN"
-			}
-			b, _ := c13Try(func() string { return hex.EncodeToString(stream.Bytes()) })
-			out = append(out, fmt.Sprintf("%s b=%s l=%d p=%d", ret, b, stream.Len(), stream.Position()))
-		}
-
 		var reader = iox.NewOctetsReader(stream)
 		var mt = &octMeter{on: true}
 		var oldGC = debug.SetGCPercent(-1)
@@ -105,30 +97,52 @@ func init() {
 		if c12Cases%4096 == 0 {
 			runtime.GC()
 		}
-		var rs []string
-		for _, op := range rops {
-			var viaStream = op[0] == 's'
-			var typ = op[len(op)-1]
-			var n = 0
-			if op[0] == 'n' {
-				typ = 'n'
-				n = atoi(op[1:])
-			}
-			var inside = stream.Position() >= 0 && stream.Position() <= stream.Len()
-			if (typ == 'B' || typ == 'S') && hugeAllocs >= octHugeMax && inside && hostilePrefix(stream) {
-				rs = append(rs, fmt.Sprintf("GUARD@%d/%d+0", stream.Position(), stream.Len()))
+		var parts []string
+		for k, seg := range segs {
+			if k%2 == 0 {
+				var out []string
+				for range seg {
+					op := ops[0]
+					ops = ops[1:]
+					ret, ok := c13Try(func() string { return c12sStreamOp(stream, op) })
+					if !ok {
+						out = append(out, "PANIC")
+						parts = append(parts, strings.Join(out, " ; "))
+						return strings.Join(parts, " || ")
+					}
+					b, _ := c13Try(func() string { return hex.EncodeToString(stream.Bytes()) })
+					out = append(out, fmt.Sprintf("%s b=%s l=%d p=%d", ret, b, stream.Len(), stream.Position()))
+				}
+				parts = append(parts, strings.Join(out, " ; "))
 				continue
 			}
-			mt.done = false
-			var r = octCall(func() string { return octRead(stream, reader, viaStream, typ, n, mt) })
-			var d = mt.delta()
-			if d > octHuge {
-				hugeAllocs++
-				runtime.GC()
-				debug.FreeOSMemory()
+			var rs []string
+			for _, op := range seg {
+				var viaStream = op[0] == 's'
+				var typ = op[len(op)-1]
+				var n = 0
+				if op[0] == 'n' {
+					typ = 'n'
+					n = atoi(op[1:])
+				}
+				var inside = stream.Position() >= 0 && stream.Position() <= stream.Len()
+				if (typ == 'B' || typ == 'S') && hugeAllocs >= octHugeMax && inside && hostilePrefix(stream) {
+					rs = append(rs, fmt.Sprintf("GUARD@%d/%d+0", stream.Position(), stream.Len()))
+					continue
+				}
+				mt.done = false
+				var r = octCall(func() string { return octRead(stream, reader, viaStream, typ, n, mt) })
+				var d = mt.delta()
+				if d > octHuge {
+					hugeAllocs++
+					runtime.GC()
+					debug.FreeOSMemory()
+				}
+				rs = append(rs, fmt.Sprintf("%s@%d/%d+%d", r, stream.Position(), stream.Len(), d))
 			}
-			rs = append(rs, fmt.Sprintf("%s@%d/%d+%d", r, stream.Position(), stream.Len(), d))
+			b, _ := c13Try(func() string { return hex.EncodeToString(stream.Bytes()) })
+			parts = append(parts, "R="+strings.Join(rs, ";")+" B="+b)
 		}
-		return strings.Join(out, " ; ") + " || R=" + strings.Join(rs, ";")
+		return strings.Join(parts, " || ")
 	}))
 }
